@@ -30,6 +30,12 @@ CACHE_PROBLEMS = [
 
 
 def key_of(text, formats, backend):
+    """The problem a request denotes: blanks and the order in which the formats are listed do not matter."""
+    return text.replace(" ", "") + "|" + ",".join(f"{n}:{f}" for n, f in sorted(map(tuple, formats))) + "|" + backend
+
+
+def raw_key_of(text, formats, backend):
+    """The cache entry a request lands in today (format order as listed): used by the descriptive LRU model only."""
     return text.replace(" ", "") + "|" + ",".join(f"{n}:{f}" for n, f in formats) + "|" + backend
 
 
@@ -154,6 +160,11 @@ def run(tier, seed):
         cache_actions.append({"act": "result", "req": rr})
     jobs.append(({"proc": "cache", "actions": cache_actions}, "0", "cache"))
     jobs.append(({"proc": "cache2", "actions": [{"act": "result", "req": rr} for rr in reversed(res_reqs)]}, "2", "cache2"))
+    for job, _, _ in jobs:
+        for a_ in job["actions"]:
+            if a_["act"] == "lookup":
+                pb_ = a_["problem"]
+                pb_["rawkey"] = raw_key_of(pb_["text"], pb_["formats"], pb_["backend"])
     with cf.ThreadPoolExecutor(max_workers=8) as ex:
         futs = [ex.submit(run_process, job, hs, d, tag) for job, hs, tag in jobs]
         per_proc = [f.result() for f in futs]
@@ -176,6 +187,14 @@ def run(tier, seed):
 
     rt = run_tlc("CacheDeterminism", str(cfg), env={"VF_TRACE": d / "trace.json"}, workers=1, allow_fail=True)
     verdicts = rt.lines
+    # descriptive model of the cache the code has today (exact LRU of the reported size): a NOTE when it does not fit,
+    # never a violation - the property does not prescribe a cache policy
+    lru = run_tlc("KernelCacheLRU", str(cfg), env={"VF_TRACE": d / "trace.json"}, workers=1, allow_fail=True)
+    lru_ok = bool(lru.lines) and bool(lru.lines[-1].get("accepted"))
+    if not lru_ok:
+        lv = lru.lines[-1] if lru.lines else {}
+        print(f"NOTE property=C15 the kernel cache no longer behaves as the LRU of spec/KernelCacheLRU.tla (first event that does "
+              f"not fit: {lv.get('stuck_at')} {lv.get('event')}); not a violation: the property does not prescribe a cache policy")
     import shutil
 
     shutil.rmtree(d, ignore_errors=True)
@@ -210,10 +229,10 @@ def run(tier, seed):
                    "cleared vs another process. Non-trivial = distinct requests for which code was generated.",
            "samples": [trace[0]] + trace[1:4] + [e for e in all_events if e["ev"] == "Lookup"][:3] + [e for e in all_events if e["ev"] == "Result"][:1],
            "events": len(trace) - 1, "events_consumed": consumed, "processes": len(jobs), "hash_seeds": P["seeds"],
-           "requests": len(reqs), "failed_lookups": failed_lookups, "exhaustive": False}
+           "requests": len(reqs), "failed_lookups": failed_lookups, "lru_model_conforms": lru_ok, "exhaustive": False}
     return {"violations": vio, "coverage": cov,
-            "assumptions": ["kernel identity = id() of the TensorMethod while it is alive in the cache",
-                            "the LRU capacity is read from cache_info().maxsize of the running process"]}
+            "assumptions": ["kernel identity = a serial number attached to the TensorMethod object at first sight",
+                            "hit = cache_info().hits increased during the lookup"]}
 
 
 def replay(data):
